@@ -36,6 +36,15 @@ pub struct Entry {
     /// central header: force (usize, csize, offset) into the ZIP64 extra record
     pub zip64_central: (bool, bool, bool),
     pub gap_before: Vec<u8>,
+    /// index among the records of `central_extra` in front of which the central ZIP64 record is placed
+    /// (0 = first, the usual place; clamped to the number of records)
+    pub zip64_central_pos: usize,
+    /// append the 4-byte "disk start number" to the central ZIP64 record (APPNOTE 4.5.3; the 16-bit disk
+    /// field of the header then holds 0xFFFF); the record exists even when no other field needs it
+    pub zip64_disk: Option<u32>,
+    /// bytes between the previous central record (or the start of the directory) and this one - NOT allowed
+    /// by APPNOTE 4.3.6 (the directory is a contiguous run of records); adversarial streams only
+    pub cd_gap_before: Vec<u8>,
     /// version-needed written in the LOCAL header when it differs from the central one
     pub local_version: Option<u16>,
     // --- lies (None = truthful) ---
@@ -74,6 +83,9 @@ impl Entry {
             zip64_local: false,
             zip64_central: (false, false, false),
             gap_before: vec![],
+            zip64_central_pos: 0,
+            zip64_disk: None,
+            cd_gap_before: vec![],
             local_version: None,
             lie_central_csize: None,
             lie_central_usize: None,
@@ -98,6 +110,17 @@ pub struct Layout {
     pub zip64_eocd: bool,
     pub trailing: Vec<u8>,
     pub gap_before_cd: Vec<u8>,
+    /// the order in which the central directory lists the entries (indices into `entries`, which stay in
+    /// LOCAL order); `None` = the same order
+    pub cd_order: Option<Vec<usize>>,
+    /// next to a forced ZIP64 end record the plain end record keeps the real count / size / offset wherever
+    /// they fit (producers that write the ZIP64 records unconditionally) instead of the 0xFFFF.. markers
+    pub eocd_unsaturated: bool,
+    /// extensible data sector of the ZIP64 end record (APPNOTE 4.3.14; its size field = 44 + this length)
+    pub end64_ext: Vec<u8>,
+    /// bytes between the last central record and the end records - a reader cannot tell this from a prefix
+    /// (offset + size of the directory no longer reach the end record); adversarial streams only
+    pub gap_before_end: Vec<u8>,
     /// (version made by, version needed) of the ZIP64 end record
     pub end64_versions: (u16, u16),
     // lies on the end records
@@ -121,6 +144,10 @@ impl Layout {
             zip64_eocd: false,
             trailing: vec![],
             gap_before_cd: vec![],
+            cd_order: None,
+            eocd_unsaturated: false,
+            end64_ext: vec![],
+            gap_before_end: vec![],
             end64_versions: (45, 45),
             lie_count: None,
             lie_cd_size: None,
@@ -216,7 +243,10 @@ pub fn build(l: &Layout) -> Built {
     }
     out.extend_from_slice(&l.gap_before_cd);
     let cd_start = out.len() as u64;
-    for (i, e) in l.entries.iter().enumerate() {
+    let order: Vec<usize> = l.cd_order.clone().unwrap_or_else(|| (0..l.entries.len()).collect());
+    for i in order.iter().cloned().filter(|i| *i < l.entries.len()) {
+        let e = &l.entries[i];
+        out.extend_from_slice(&e.cd_gap_before);
         let desc = e.descriptor != Desc::None;
         let flags = e.flags | if desc { 8 } else { 0 };
         let csize = e.lie_central_csize.unwrap_or(e.data.len() as u64);
@@ -229,21 +259,34 @@ pub fn build(l: &Layout) -> Built {
         let zu = zu || usize_ >= 0xFFFFFFFF;
         let zc = zc || csize >= 0xFFFFFFFF;
         let zo = zo || off >= 0xFFFFFFFF;
-        let mut extra = vec![];
-        if zu || zc || zo {
-            p16(&mut extra, 1);
-            p16(&mut extra, (zu as u16 + zc as u16 + zo as u16) * 8);
+        let mut z = vec![];
+        if zu || zc || zo || e.zip64_disk.is_some() {
+            p16(&mut z, 1);
+            p16(&mut z, (zu as u16 + zc as u16 + zo as u16) * 8 + if e.zip64_disk.is_some() { 4 } else { 0 });
             if zu {
-                p64(&mut extra, usize_);
+                p64(&mut z, usize_);
             }
             if zc {
-                p64(&mut extra, csize);
+                p64(&mut z, csize);
             }
             if zo {
-                p64(&mut extra, off);
+                p64(&mut z, off);
+            }
+            if let Some(d) = e.zip64_disk {
+                p32(&mut z, d);
             }
         }
-        extra.extend_from_slice(&e.central_extra);
+        // the ZIP64 record in front of record number `zip64_central_pos` of the other extra data
+        let mut cut = 0usize;
+        for _ in 0..e.zip64_central_pos {
+            if cut + 4 > e.central_extra.len() { break; }
+            let len = u16::from_le_bytes([e.central_extra[cut + 2], e.central_extra[cut + 3]]) as usize;
+            if cut + 4 + len > e.central_extra.len() { break; }
+            cut += 4 + len;
+        }
+        let mut extra = e.central_extra[..cut].to_vec();
+        extra.extend_from_slice(&z);
+        extra.extend_from_slice(&e.central_extra[cut..]);
         p32(&mut out, e.central_sig);
         p16(&mut out, e.made_by);
         p16(&mut out, e.version_needed);
@@ -257,7 +300,7 @@ pub fn build(l: &Layout) -> Built {
         p16(&mut out, e.lie_central_name_len.unwrap_or(e.name.len() as u16));
         p16(&mut out, e.lie_central_extra_len.unwrap_or(extra.len() as u16));
         p16(&mut out, e.lie_central_comment_len.unwrap_or(e.comment.len() as u16));
-        p16(&mut out, 0);
+        p16(&mut out, if e.zip64_disk.is_some() { 0xFFFF } else { 0 });
         p16(&mut out, e.int_attrs);
         p32(&mut out, e.ext_attrs);
         p32(&mut out, if zo { 0xFFFFFFFF } else { off as u32 });
@@ -266,7 +309,8 @@ pub fn build(l: &Layout) -> Built {
         out.extend_from_slice(&e.comment);
     }
     let cd_end = out.len() as u64;
-    let n = l.lie_count.unwrap_or(l.entries.len() as u64);
+    out.extend_from_slice(&l.gap_before_end);
+    let n = l.lie_count.unwrap_or(order.len() as u64);
     let cd_size = l.lie_cd_size.unwrap_or(cd_end - cd_start);
     let cd_off = l.lie_cd_offset.unwrap_or(cd_start - base);
     let need64 = l.zip64_eocd || n > 0xFFFF || cd_size > 0xFFFFFFFF || cd_off > 0xFFFFFFFF;
@@ -274,7 +318,7 @@ pub fn build(l: &Layout) -> Built {
         let (d1, d2) = l.lie_eocd64_disks.unwrap_or((0, 0));
         let pos = out.len() as u64;
         p32(&mut out, 0x06064b50);
-        p64(&mut out, 44);
+        p64(&mut out, 44 + l.end64_ext.len() as u64);
         p16(&mut out, l.end64_versions.0);
         p16(&mut out, l.end64_versions.1);
         p32(&mut out, d1);
@@ -283,6 +327,7 @@ pub fn build(l: &Layout) -> Built {
         p64(&mut out, n);
         p64(&mut out, cd_size);
         p64(&mut out, cd_off);
+        out.extend_from_slice(&l.end64_ext);
         p32(&mut out, 0x07064b50);
         p32(&mut out, 0);
         p64(&mut out, l.lie_locator_offset.unwrap_or(pos - base));
@@ -293,7 +338,7 @@ pub fn build(l: &Layout) -> Built {
     p32(&mut out, 0x06054b50);
     p16(&mut out, d1);
     p16(&mut out, d2);
-    let force = l.zip64_eocd;
+    let force = l.zip64_eocd && !l.eocd_unsaturated;
     p16(&mut out, if force || n > 0xFFFF { 0xFFFF } else { n as u16 });
     p16(&mut out, if force || n > 0xFFFF { 0xFFFF } else { n as u16 });
     p32(&mut out, if force || cd_size > 0xFFFFFFFF { 0xFFFFFFFF } else { cd_size as u32 });
@@ -302,4 +347,25 @@ pub fn build(l: &Layout) -> Built {
     out.extend_from_slice(&l.comment);
     out.extend_from_slice(&l.trailing);
     Built { bytes: out, offsets, cd_offset: cd_start, eocd_offset }
+}
+
+#[cfg(test)]
+mod f7_witness {
+    use super::*;
+    /// The two layouts of lean/ZipVerif/Props/C03Order.lean (`reversed`, `unsaturated`): their bytes are pasted
+    /// there and the kernel checks `Spec.Zip.buildG` against them (run with `--nocapture` to print them again).
+    #[test]
+    fn print_witnesses() {
+        let mut l = Layout::new(vec![Entry::stored(b"a", b"a"), Entry::stored(b"b", b"bb")]);
+        l.cd_order = Some(vec![1, 0]);
+        let h = |b: &[u8]| b.iter().map(|x| format!("{x}")).collect::<Vec<_>>().join(", ");
+        eprintln!("REVERSED [{}]", h(&build(&l).bytes));
+        l.zip64_eocd = true;
+        l.eocd_unsaturated = true;
+        l.end64_ext = vec![0x65, 0, 2, 0, 0, 0, 7, 7];
+        l.gap_before_end = vec![1, 2, 3];
+        eprintln!("UNSATURATED [{}]", h(&build(&l).bytes));
+        let a = zip::ZipArchive::new(std::io::Cursor::new(build(&l).bytes)).unwrap();
+        assert_eq!(a.len(), 2);
+    }
 }
